@@ -292,10 +292,10 @@ impl<'a> Gen<'a> {
 
     fn call(&mut self, env: &mut Env, allow_stream_out: bool) -> Instr {
         let peer = self.target(env);
-        let kinds = if self.cfg.failing_services { vec!["peer", "peers", "obj", "arr", "str", "num", "echo", "fail", "obj", "arr", "echo"] }
+        let kinds = if self.cfg.failing_services { vec!["peer", "peers", "obj", "arr", "str", "num", "echo", "fail", "obj", "arr", "echo", "badjson"] }
                     else { vec!["peer", "peers", "obj", "arr", "str", "num", "echo", "obj", "arr"] };
         let mut fk = *self.rng.pick(&kinds);
-        if fk == "fail" && self.cfg.fragment && !self.in_xor_left { fk = "str"; }
+        if (fk == "fail" || fk == "badjson") && self.cfg.fragment && !self.in_xor_left { fk = "str"; }
         let n_args = self.rng.below(3);
         let mut args = vec![];
         for _ in 0..n_args { args.push(self.arg(env).0); }
@@ -303,7 +303,7 @@ impl<'a> Gen<'a> {
         let func = Val::Lit(self.fresh(&format!("{fk}_")));
         let kind = match fk { "peer" => Kind::Peer, "peers" => Kind::Peers, "obj" => Kind::Obj, "arr" => Kind::Arr, "str" => Kind::Str, "num" => Kind::Num, _ => Kind::Any };
         let r = self.rng.below(10);
-        let out = if r < 6 || fk == "fail" && r < 8 { let n = self.fresh("v"); env.scalars.push((n.clone(), kind)); Out::Scalar(n) }
+        let out = if r < 6 || (fk == "fail" || fk == "badjson") && r < 8 { let n = self.fresh("v"); env.scalars.push((n.clone(), kind)); Out::Scalar(n) }
                   else if r < 8 && allow_stream_out && self.cfg.streams && !env.free_streams().is_empty() { let fs = env.free_streams(); Out::Stream(self.rng.pick(&fs).clone()) }
                   else if r < 8 && allow_stream_out && self.cfg.streams { let n = self.fresh("$s"); env.streams.push(n.clone()); Out::Stream(n) }
                   else { Out::None };
